@@ -136,18 +136,25 @@ func callsIn(fn *ssa.Function, anon bool, names ...string) []ssa.Instruction {
 // closure returns the functions reachable from roots through static calls and
 // closure creation, limited to repository functions accepted by keep, to depth.
 func (p *Prog) closure(roots []*ssa.Function, depth int, keep func(*ssa.Function) bool) []*ssa.Function {
-	seen := map[*ssa.Function]bool{}
+	// remaining depth with which each function was expanded: a function first reached with its depth
+	// budget exhausted must be expanded again when it is reached (or given as a root) with more budget
+	seen := map[*ssa.Function]int{}
 	var out []*ssa.Function
 	var walk func(f *ssa.Function, d int)
 	walk = func(f *ssa.Function, d int) {
-		if f == nil || seen[f] || f.Blocks == nil {
+		if f == nil || f.Blocks == nil {
+			return
+		}
+		if prev, ok := seen[f]; ok && prev >= d {
 			return
 		}
 		if keep != nil && !keep(f) {
 			return
 		}
-		seen[f] = true
-		out = append(out, f)
+		if _, ok := seen[f]; !ok {
+			out = append(out, f)
+		}
+		seen[f] = d
 		if d == 0 {
 			return
 		}
